@@ -40,7 +40,7 @@ type Chan[T any] struct {
 
 //go:norace
 func NewChan[T any](site string, n ...int) *Chan[T] {
-	c := &Chan[T]{id: NewObj(), site: site, rcClose: new(byte)}
+	c := &Chan[T]{id: NewObj(), site: site, rcClose: SyncAddr()}
 	if len(n) > 0 {
 		c.cap = n[0]
 	}
@@ -53,7 +53,7 @@ func NewChan[T any](site string, n ...int) *Chan[T] {
 	}
 	c.rcSlots = make([]*byte, ns)
 	for i := range c.rcSlots {
-		c.rcSlots[i] = new(byte)
+		c.rcSlots[i] = SyncAddr()
 	}
 	return c
 }
